@@ -1,6 +1,7 @@
 import LeanHelix.Props.C05Net
 import LeanHelix.Props.C14
 import LeanHelix.Props.C15Registry
+import LeanHelix.Lemmas.TermReg
 /-!
 # C05 at the network level, the election phase: from the election timeouts to the leader's NEW_VIEW
 
@@ -577,6 +578,33 @@ theorem good_view_from_timeouts {net : Net} (hr : Reach C net) (hA2 : TraceA2 ne
 
 end elect
 
+/-! ## the registry invariant of C15 in every reachable state of the network -/
+
+/-- **the context registry of every member, in every reachable state, satisfies the registry invariant of
+C15** (the term applies nothing but registry operations to it: `Term.step_regRun`) -/
+theorem reach_reg_inv {net : Net} (hr : Reach C net) (i : Nat) : C15.Inv (net.node i).reg := by
+  induction hr with
+  | init => exact C15.inv_init
+  | @step net _ _ hs ih =>
+    have common : ∀ (j : Nat) (e : Event) (spi : List Spi) (w' : Term.W),
+        step (net.node j) e spi = (w'.n, w'.outs) → C15.Inv (upd net.node j w'.n i).reg := by
+      intro j e spi w' hst
+      by_cases hij : i = j
+      · subst hij
+        rw [upd_same]
+        have := Term.step_regInv (net.node i) e spi ih
+        rw [hst] at this; exact this
+      · rw [upd_other _ _ hij]; exact ih
+    cases hs with
+    | start j first spi w' g hh hm hs hr hst => exact common j _ spi w' hst
+    | event j e spi w' g hh hm hs hns hg ha hr hst => exact common j e spi w' hst
+
+/-- in a reachable state a registry that is not shut down and whose watermark is not above `(h, v)` hands
+out a live context for `(h, v)` -/
+theorem ctxOK_reach {net : Net} (hr : Reach C net) (i h v : Nat) (hs : (net.node i).reg.shutdown = false)
+    (hst : Contexts.isStale (net.node i).reg ⟨h, v⟩ = false) : CtxOK (net.node i).reg h v :=
+  ctxOK_of_inv _ h v (reach_reg_inv hr i) hs (by intro hc; rw [(C15.isStale_iff _ _).mpr hc] at hst; cases hst)
+
 /-! ## discharging the consumer-side hypotheses: an approving consumer that never cancels meanwhile -/
 
 /-- with a context for `(h, v)` that is handed out and not done, and a consumer that approves without a
@@ -662,6 +690,38 @@ theorem handleNewView_same (w : Term.W) (nv : NVMsg) (hspi : NoCancel w.spi) :
     exact key _ _ (askValidate_same w _ _ _ _ hspi)
   · simp only [hlv]
     exact key w true (C05.RegSame.refl _)
+
+/-- **From the election timeouts to a decision, with approving consumers** — every hypothesis a primitive
+fact about the state: the crew of view `v = u + 1` is started and in view `u`; no crew member's registry is
+shut down or has a watermark above `(height, v)`; no follower's vote would carry a block committing to the
+empty hash; the consumers approve what they are asked to validate, the leader's consumer hands over `b`
+when asked, and no cancellation arrives during those calls.  (`CtxOK` and the consumer-side hypotheses of
+`good_view_from_timeouts` are discharged by the registry invariant `reach_reg_inv`, `askValidate_ok` and
+`handleNewView_same`.) -/
+theorem good_view_from_timeouts_approving (hwf : WF C) (u v : Nat) (R : List Nat) (crew : Crew C v R)
+    (hv : wrap64 (u + 1) = v) (huv : u < v) {net : Net} (hr : Reach C net) (hA2 : TraceA2 net.trace) (b : Block)
+    (hstarted : ∀ k ∈ R ++ [ldr C v], net.started k = true)
+    (hviews : ∀ k ∈ R ++ [ldr C v], (net.node k).view = u)
+    (hregs : ∀ k ∈ R ++ [ldr C v], (net.node k).reg.shutdown = false
+      ∧ Contexts.isStale (net.node k).reg ⟨C.height, v⟩ = false ∧ Contexts.isStale (net.node k).reg ⟨C.height, maxView⟩ = false)
+    (hne : ∀ j ∈ R, ∀ blk, voteBlock (net.node j) = some blk → blk.hash ≠ emptyBytes) :
+    ∃ net', Reach C net' ∧ OutsLe net net'
+      ∧ ∀ j ∈ R ++ [ldr C v], ∃ blk cs, Out.commit blk cs ∈ net'.outs j := by
+  have hLm : ldr C v ∈ R ++ [ldr C v] := List.mem_append_right _ (List.mem_singleton.mpr rfl)
+  have hnc : NoCancel [Spi.verdict true none] := by
+    intro g cd rest h
+    simp only [List.cons.injEq, Spi.verdict.injEq] at h
+    exact h.1.2.symm
+  obtain ⟨l1, l2, l3⟩ := hregs _ hLm
+  refine good_view_from_timeouts hwf u v R crew hv huv hr hA2 b (fun _ => [.verdict true none]) hstarted hviews
+    (ctxOK_reach hr _ _ _ l1 l2) ⟨l1, l3⟩ hne ?_ ?_
+  · intro j hj nv hh hvv _
+    obtain ⟨f1, f2, _⟩ := hregs j (List.mem_append_left _ hj)
+    rw [hh, hvv]
+    exact askValidate_ok _ _ _ _ _ [] rfl (ctxOK_reach hr j _ _ f1 f2)
+  · intro j hj nv _ _
+    obtain ⟨f1, _, f3⟩ := hregs j (List.mem_append_left _ hj)
+    exact C05.Live.of_same (handleNewView_same _ nv hnc) ⟨f1, f3⟩
 
 /-! ## non-vacuity: from three started members in view 0 to three decisions in view 1
 
